@@ -1688,6 +1688,12 @@ M("C17", "nw-no-data-becomes-minus-100", NWF, '    # Loop through the crop and g
 M("C17", "korea-fix-result-dropped", IFDF,
   '''        dataframes[df_id] = df.replace({"KOR": "PRK", "PRK": "KOR"})''',
   '''        fixed = df.replace({"KOR": "PRK", "PRK": "KOR"})''', "C17.WIRE")
+M("C03", "demand-tuple-returned-swapped-and-lane-crossed", FABF,
+  '''        feed = self.get_feed_usage(feed_duration)''', '''        feed = self.get_feed_usage(biofuel_duration)''', "C03.ARGLANE")
+M("C11", "get-conversion-fat-protein-crossed", UCF,
+  '''                to_units_fat + " per month",
+                to_units_protein + " per month",''', '''                to_units_protein + " per month",
+                to_units_fat + " per month",''', "C11.ARGLANE")
 # ---------------------------------------------------------------------------- runner
 
 COPY = ["src", "scenarios", "scripts", "plot_manuscript_figures.py", "tests"]
